@@ -100,7 +100,12 @@ func WithScriptedServer(greeting string, script Script, lmtp bool, f func(cs *CS
 				if i > 0 {
 					time.Sleep(6 * time.Minute)
 				}
-				cs.SEnd.Write(part)
+				// "\x00CUT\x00": the answer reaches the client in separate pieces (one Read each), without any delay
+				for _, piece := range bytes.Split(part, []byte("\x00CUT\x00")) {
+					if len(piece) > 0 {
+						cs.SEnd.Write(piece)
+					}
+				}
 			}
 		}
 	}()
